@@ -59,6 +59,23 @@ Find(name) == IF \E i \in 1..Len(table) : table[i] = name THEN name ELSE <<>>   
 
 Execute(l) == LET t == Tokenize(l) IN <<[name |-> Find(t.argv[1]), argc |-> t.argc, argv |-> t.argv]>>
 
+(* ------------------------------- console output ------------------------------- *)
+(* What one input character makes the console print, up to wording: [kind, text, prompt].  kind "exact": the text is      *)
+(* semantic (echo's arguments, the erase sequence) and must match; "nonempty" / "empty": a message whose wording is the  *)
+(* code's business must / must not appear; prompt: a fresh prompt follows.                                               *)
+RECURSIVE EchoArgs(_, _, _)
+EchoArgs(argv, k, argc) == IF k > argc THEN <<10>> ELSE <<32>> \o argv[k] \o EchoArgs(argv, k + 1, argc)
+CmdOutput(d) ==
+  CASE d.name = Builtins[1] -> [kind |-> "exact", text |-> EchoArgs(d.argv, 2, d.argc)]           \* echo
+    [] d.name = Builtins[2] -> [kind |-> "nonempty", text |-> <<>>]                                \* help lists the commands
+    [] d.name = <<>> -> [kind |-> IF d.argv[1] # <<>> THEN "nonempty" ELSE "empty", text |-> <<>>]  \* unknown: a complaint; empty line: silence
+    [] OTHER -> [kind |-> IF d.name[1] = 99 THEN "nonempty" ELSE "empty", text |-> <<>>]           \* the drivers' commands: those named c... fail ("Command failed")
+OutF(l, c) ==
+  IF c = NL \/ Len(l) >= BufCap - 1 THEN [kind |-> CmdOutput(Execute(l)[1]).kind, text |-> CmdOutput(Execute(l)[1]).text, prompt |-> TRUE]
+  ELSE IF c = BS THEN [kind |-> "exact", text |-> (IF l = <<>> THEN <<32>> ELSE <<32, 8>>), prompt |-> FALSE]
+  ELSE IF c = CtrlC THEN [kind |-> "exact", text |-> <<10>>, prompt |-> TRUE]
+  ELSE [kind |-> "empty", text |-> <<>>, prompt |-> FALSE]
+
 (* -------------------------------- console_run -------------------------------- *)
 (* effect of one character on the line: [line, disp] *)
 CharF(l, c) ==
